@@ -93,6 +93,20 @@ class CallSite:
     def loc(self):
         return span_loc(self.sp)
 
+    def site_loc(self):
+        """file:line of the call as seen from the analysed function: for a call inside an expanded helper (inline.py) the
+        place where the helper was called"""
+        sp = self.body.blocks[self.bb].get("inl_sp")
+        return span_loc(sp) if sp else self.loc()
+
+    def site_lines(self):
+        """(first line, last line) of the expansion call this call belongs to, or None outside expansions"""
+        sp = self.body.blocks[self.bb].get("inl_sp")
+        if not sp:
+            return None
+        t = span_tuple(sp["s"])
+        return (t[1], t[3])
+
     def __repr__(self):
         return "<call %s at %s>" % (self.callee, self.loc())
 
